@@ -11,7 +11,7 @@ import (
 func init() {
 	register(stream{
 		name: "policy",
-		rule: "every policy of one statement of depth ≤ 2 built from 5 comparison operators × 5 selectors × 4 literals, like × 2 selectors × 3 patterns, not, binary and/or (both operand orders), all/any over a list selector — each against 16 data trees; every ordered pair of 28 boundary numbers (floats incl. ±MaxFloat64, denormals, NaN, ±Inf, ±0; ints up to the int64 limits) under each of the five comparison operators (maps with present/missing/optional/null fields, ints, floats incl. NaN/±Inf/−0, strings, lists of maps, empty collections, boundary integers ±(2^53−1)), together with the negated statement (so that the four-valued result is observable through Match/PartialMatch); plus grammar-random policies of depth ≤ 4 with 1–3 statements, each also in a randomly permuted form, against random trees. Added later: every policy object is also evaluated after it was used on 17 other data values, as an equal object decoded from its IPLD form that sees the other data first, and as decoded from IPLD (identical matching); overlapping slices of one policy (p[:n-1], p[1:]) answer the same before and after p is matched and p prints the same; selectors with a failing required segment before an optional last one, optional iterators on non-lists, explicit nulls under optional selectors; integer neighbours beyond 2^53. Non-trivial = the statement has a connective/quantifier/negation or a selector that does not resolve. Distinct = distinct protocol lines.",
+		rule: "every policy of one statement of depth ≤ 2 built from 5 comparison operators × 5 selectors × 4 literals, like × 2 selectors × 3 patterns, not, binary and/or (both operand orders), all/any over a list selector — each against 16 data trees; every ordered pair of 28 boundary numbers (floats incl. ±MaxFloat64, denormals, NaN, ±Inf, ±0; ints up to the int64 limits) under each of the five comparison operators (maps with present/missing/optional/null fields, ints, floats incl. NaN/±Inf/−0, strings, lists of maps, empty collections, boundary integers ±(2^53−1)), together with the negated statement (so that the four-valued result is observable through Match/PartialMatch); plus grammar-random policies of depth ≤ 4 with 1–3 statements, each also in a randomly permuted form, against random trees. Added later: every policy object is also evaluated after it was used on 17 other data values, as an equal object decoded from its IPLD form that sees the other data first, and as decoded from IPLD (identical matching); overlapping slices of one policy (p[:n-1], p[1:]) answer the same before and after p is matched and p prints the same; selectors with a failing required segment before an optional last one, optional iterators on non-lists, explicit nulls under optional selectors; integer neighbours beyond 2^53. like patterns without a wildcard but with escapes, on strings that hold backslashes. Non-trivial = the statement has a connective/quantifier/negation or a selector that does not resolve. Distinct = distinct protocol lines.",
 		run:  runPolicyStream,
 		eval: evalPolicy,
 	})
@@ -281,6 +281,7 @@ var polData = []string{
 	"m(61:d7ff8000000000001,62:d7ff0000000000000)", "m(61:i9007199254740991,62:i-9007199254740991)",
 	"m(61:d8000000000000000,62:d0000000000000000)", "m(6c:l(i2,s78,i1),73:s2a)",
 	"m(61:n,62:n,6e:n)", "m(6e:n,73:s78)", "m(6c:l(n,i1),6e:i1)", // explicit nulls under optional selectors
+	"m(73:s5c785c795c7a)", "m(73:s615c62)", "m(73:s78797a5c)", // strings holding backslashes (a pattern's own text, an escaped backslash)
 }
 
 // boundary numbers: floats 0, -0, ±1, 1.5, ±MaxFloat64, ±SmallestNonzero, ±1e308, 2^53, 2^53+2, 0.1+0.2, 0.3,
@@ -310,7 +311,8 @@ func polLeaves() []string {
 		}
 	}
 	for _, s := range []string{".s", ".a"} {
-		for _, p := range []string{"x*", "*", "\\*"} {
+		// (patterns without any wildcard but with escapes are still patterns: `\x` is the letter x, `\\` one backslash)
+		for _, p := range []string{"x*", "*", "\\*", "\\x\\y\\z", "x\\yz", "xyz", "\\xyz\\", "a\\\\b"} {
 			ls = append(ls, "k("+hxs(s)+","+hxs(p)+")")
 		}
 	}
